@@ -233,7 +233,6 @@ func vSymState(b vBounds) *vEnv {
 		}
 	} else {
 		vAssume(!d.blockProcessed)
-		vAssume(!d.preBlockProcessed)
 	}
 
 	// --- timer (Inv 14)
